@@ -19,12 +19,12 @@
 (* when its last line has been consumed.                                    *)
 (*                                                                         *)
 (* Line formats (field a = action):                                         *)
-(*  Submit  id ok post wq bc         an EVENT / add_event call               *)
-(*  Writer  post wq                  one writer transaction                  *)
-(*  Gc      T post wq                a collection pass                       *)
-(*  Delete  id post wq               storage.delete_event                    *)
+(*  Submit  id ok post q bc          an EVENT / add_event call               *)
+(*  Writer  post q                   one writer transaction                  *)
+(*  Gc      T post q                 a collection pass                       *)
+(*  Delete  id post q                storage.delete_event                    *)
 (*  Crash   post                     process killed and store reopened       *)
-(*  Fault   id post wq bc            Submit during which the engine failed   *)
+(*  Fault   id post q bc             Submit during which the engine failed   *)
 (*  Query   fs res                   a REQ's stored answer                   *)
 (*  Get     id found                 get_event / GET /e/<id>                 *)
 (***************************************************************************)
@@ -33,7 +33,7 @@ EXTENDS Integers, Sequences, FiniteSets, TLC, Json
 CONSTANTS Universe, OneCharNames, Backend, PolicyRefused, MaxLimit, Traces
 
 VARIABLES store, wq, bcast, last,   \* Store.tla
-          tid, l, bad                \* trace id, next line, verdict so far: set of <<name, line>>
+          tid, l, bad                \* trace id, next line, verdict so far: set of <<name, line, ids>>
 
 S == INSTANCE Store WITH GcTimes <- {}
 
@@ -55,7 +55,7 @@ TraceInit ==
 \* bind the primed Store variables to what was observed
 Adopt(ln) ==
     /\ store' = ln.post
-    /\ wq' = (IF "wq" \in DOMAIN ln THEN ln.wq ELSE <<>>)
+    /\ wq' = (IF "q" \in DOMAIN ln THEN ln.q ELSE <<>>)
     /\ bcast' = (IF "bc" \in DOMAIN ln THEN bcast \o ln.bc ELSE IF ln.a = "Crash" THEN <<>> ELSE bcast)
     /\ last' = CASE ln.a = "Submit" -> [act |-> "Submit", id |-> ln.id, ok |-> ln.ok]
                  [] ln.a = "Fault"  -> [act |-> "Submit", id |-> ln.id, ok |-> FALSE]
@@ -77,7 +77,7 @@ Conforms(ln) ==
       [] ln.a = "Fault"  -> \/ UNCHANGED <<store, wq>> /\ bcast' = bcast
                             \/ S!Submit(ln.id, TRUE)
 
-Garbage(ln) == ~KnownIds(ln.post) \/ ("wq" \in DOMAIN ln /\ ~KnownIds(WqIds(ln.wq)))
+Garbage(ln) == ~KnownIds(ln.post) \/ ("q" \in DOMAIN ln /\ ~KnownIds(WqIds(ln.q)))
                 \/ ("bc" \in DOMAIN ln /\ ~KnownIds(Range(ln.bc)))
 
 Mutating(ln) == ln.a \in {"Submit", "Writer", "Gc", "Delete", "Crash", "Fault"}
@@ -85,25 +85,25 @@ Mutating(ln) == ln.a \in {"Submit", "Writer", "Gc", "Delete", "Crash", "Fault"}
 MutStep ==
     /\ Mutating(Line)
     /\ IF Garbage(Line)
-       THEN /\ bad' = bad \cup {<<"Garbage", l>>}
+       THEN /\ bad' = bad \cup {<<"Garbage", l, {}>>}
             /\ store' = Line.post \cap DOMAIN Universe
             /\ UNCHANGED <<wq, bcast, last>>
        ELSE /\ Adopt(Line)
-            /\ bad' = bad \cup {<<n, l>> : n \in (IF Conforms(Line) THEN {} ELSE {"Conform"})
-                                                 \cup (IF Line.a = "Fault" THEN {} ELSE S!StepVerdict)}
+            /\ bad' = bad \cup {<<v[1], l, v[2]>> : v \in (IF Conforms(Line) THEN {} ELSE {<<"Conform", S!SubjectOfStep>>})
+                                                       \cup (IF Line.a = "Fault" THEN {} ELSE S!StepVerdict)}
 
 Q == INSTANCE Query
 
 QueryStep ==
     /\ Line.a = "Query"
     /\ UNCHANGED svars
-    /\ bad' = bad \cup {<<n, l>> : n \in
+    /\ bad' = bad \cup {<<n, l, {}>> : n \in
               IF ~KnownIds(Range(Line.res)) THEN {"Garbage"} ELSE Q!QueryVerdict(store, Line.fs, Line.res)}
 
 GetStep ==
     /\ Line.a = "Get"
     /\ UNCHANGED svars
-    /\ bad' = bad \cup {<<n, l>> : n \in IF Line.found = (Line.id \in store) THEN {} ELSE {"C08_GetAgrees"}}
+    /\ bad' = bad \cup {<<n, l, {Line.id}>> : n \in IF Line.found = (Line.id \in store) THEN {} ELSE {"C08_GetAgrees"}}
 
 TraceNext ==
     /\ l <= Len(Trace)
